@@ -372,22 +372,16 @@ def pathCanon (s : Str) : Bool :=
 where
   hasSub (pat s : Str) : Bool := (List.range (s.length + 1)).any fun i => (s.drop i).take pat.length == pat
 
-/-- `CastUnmarshaller[PurePath]` with the fallback to the text itself. -/
-def umPath (env : Env) (L : Leaves) (v : Val) : R Val :=
-  match load env L v with
-  | .error e => .error e
-  | .ok d =>
-    match d with
-    | .path p => .ok (.path p)
+/-- `PathUnmarshaller`: an instance passes, otherwise `PurePath(decode(val))` — the text of a path is
+    the path, it is never read as JSON or a literal. -/
+def umPath (_env : Env) (_L : Leaves) (v : Val) : R Val :=
+  match v with
+  | .path p => .ok (.path p)
+  | _ =>
+    match decode v with
     | .str s => if pathCanon s then .ok (.path s) else .error .unsupported
-    | _ =>
-      if isText env v then
-        match decode v with
-        | .str s => if pathCanon s then .ok (.path s) else .error .unsupported
-        | _ => .error .unsupported
-      else match d with
-        | .member _ _ | .inst _ _ | .opaque _ => .error .unsupported   -- may define __fspath__
-        | _ => .error .type
+    | .member _ _ | .inst _ _ | .opaque _ => .error .unsupported   -- may define __fspath__
+    | _ => .error .type
 
 /-- `PatternUnmarshaller`: `re.compile(decode(val))`; only literal patterns are modelled. -/
 def umPattern (v : Val) : R Val :=
